@@ -445,6 +445,11 @@ def gen_group_ops(rng, n, which):
             ls, k = scalar_value(rng)
             out.append((f'{g}.mul:{ls}:{ra}', f'{g}.mul@{rng.choice(["", "rev"])} {ta} {h32(k)}'))
         elif which == 'C15':
+            if rng.random() < 0.08 and A is not None:
+                # setters / accessors / curve coefficient on raw coordinates
+                cc = rng.choice(['x', 'y', 'z'])
+                out.append((f'{g}.set:{cc}', f'{g}.set {ta} {cc} {K.enc(K.rand(rng) if rng.random() < 0.7 else K.zero)}'))
+                continue
             op = rng.choice(['eq', 'eq', 'is_zero', 'normalize', 'affine'])
             if op == 'eq':
                 # same point in two representations, P vs -P, P vs O
